@@ -29,7 +29,7 @@ class Ctx:
         """the module with same-module helper calls inlined (sa/inline.py): what the structural
         checks read, so that splitting a function into helpers does not change what they see"""
         from .inline import inlined_module
-        return self.memo(("imod", name), lambda: inlined_module(self.model.mod(name)))
+        return self.memo(("imod", name), lambda: inlined_module(self.model.mod(name), self.model))
 
     # -- rule patterns ------------------------------------------------------------
     def wrapped(self, text):
